@@ -23,7 +23,7 @@ CLAIMED = {
  "C07": ("ledger", "TLC model checking of RevisionStep/NoDoubleUse on contract configurations of Ledger.tla + simulated and exhaustively enumerated contract life-cycles replayed on the real code with payout comparison; StorageProof.tla (tree, honest and dishonest proofs, transcribed verifiers) with every (leaves, challenged leaf, era/version, proof kind) executed on real chains; challenge index validated by TLC over BigNat",
          "Payout outputs of every resolved contract equal those of its latest accepted revision, once; forbidden revisions, dishonest proofs and second resolutions are rejected; honest storage proofs are accepted in every era except the documented middle-era quirk, proofs of another leaf / altered data / wrong length are rejected; the challenged leaf is seed mod leaves. Found and fixed the v1 short-proof soundness defect.",
          LEDGER_NOTE, "DESIGN.md 4.6, 5/C07"),
- "C04": ("acc", "Membership.tla (Member(acc, e) <=> e is exactly a live leaf with its own path; probe catalogue over bounded forests incl. reverted-branch and never-created elements) model-checked; every TLC probe and reflection-derived field mutation asked of the real code through the shim, ValidateTransactionElements, ValidateV2Transaction, ValidateBlock supplements (five block forms, placements beside the genuine copy) and used parents, in-block parents (InBlock.tla: the shared id->index map of MidState) and history proofs of empty and non-empty files, on synthetic forests and on real ledger chains",
+ "C04": ("acc", "Membership.tla (Member(acc, e) <=> e is exactly a live leaf with its own path; probe catalogue over bounded forests incl. reverted-branch and never-created elements) model-checked; every TLC probe and reflection-derived field mutation asked of the real code through the shim, ValidateTransactionElements, ValidateV2Transaction, ValidateBlock supplements (five block forms, placements beside the genuine copy) and used parents, in-block parents (InBlock.tla: the shared id->index map of MidState) and history proofs of empty and non-empty files, on synthetic forests and on real ledger chains; TxnSound: the probe as first, middle and last parent of a multi-parent transaction and before/after genuine resolutions",
          "Only the genuine live element with exactly its field values, position and proof is accepted; every single-field mutation (enumerated by reflection over the element structs), foreign proof or position, spent, reverted-branch or never-created element is rejected, through every public door, with controls that show the rejection is due to the element.",
          "Trusted: collision-free hashing, the verif export shim (forwards only), hterm, TLC. Attestation elements only through the shim.", "DESIGN.md 4.2, 5/C04"),
  "C05": ("acc", "TLC model checking of Accumulator.tla (algorithm transcription = naive forest on all bounded forests, apply/revert) + one implementation test per TLC transition replayed through the real accumulator (export shim) with symbolic terms evaluated by the real hashes + TLC -simulate histories + real chains through the public API + AccBlocks.tla (which leaves a block hands the accumulator, in which order and with which flags; ephemeral spends, same-block contract life-cycles) replayed as real signed blocks",
@@ -32,7 +32,7 @@ CLAIMED = {
  "C12": ("wire", "Semantics.tla (pre-image of every ID and signature hash in the Wire combinator language, written from the rule 'everything that has an effect, nothing that is a witness') evaluated by TLC for recorded real values and hashed by the harness against ID()/SigHash(); effect/witness table exported by TLC drives reflection-based single-leaf mutation; SemanticsDistinct model-checked; era/purpose replay and block-content mutation on real chains; SemanticsPure.tla: the hash entry points as users of hasher pools, invariant Pure under call histories with aborted calls, replayed on the real code against a fresh-process baseline",
          "BLAKE2b of the spec's pre-image equals every ID, derived ID, commitment, header/block ID and signature hash in every era for generated and real transactions and blocks; IDs change iff an effect-bearing leaf changes; pre-images of distinct derivations differ; signatures are refused across eras and purposes; every content mutation of a block is refused or changes its ID. Found F2 (known, needs a hard fork).",
          "Trusted: wirebridge reflection walker, x/crypto BLAKE2b as the hash evaluator, TLC.", "DESIGN.md 4.8, 5/C12"),
- "C13": ("pow", "Difficulty.tla relational clauses; TLC-enumerated timestamp-choice skeletons executed on the real ApplyHeader/ApplyBlock; every recorded step validated by TLC (DifficultyTrace.tla over BigNat); DifficultyMag.tla: constructed states in every era at magnitudes where difficulty, total work and the clamp bounds cross every 64-bit limb boundary (clause WorkSum)",
+ "C13": ("pow", "Difficulty.tla relational clauses; TLC-enumerated timestamp-choice skeletons executed on the real ApplyHeader/ApplyBlock; every recorded step validated by TLC (DifficultyTrace.tla over BigNat); DifficultyMag.tla: constructed states in every era at magnitudes where difficulty, total work and the clamp bounds cross every 64-bit limb boundary (clause WorkSum); networks whose hard forks sit at heights 0 and 1 (DifficultySkelZero), nonce factor taken from the scenario",
          "Every recorded header application satisfies the era's clamp, non-zero work, floored-inverse relations, monotone work, header-only = full-block state and the header acceptance rule with verdicts for honest and defective headers; skeletons cross every era boundary on a lattice of network shapes.",
          "Trusted: BigNat, ancestor timestamps supplied as a node would, difficulty < 2^200. Relational blind spots: a formula change that stays inside the clamp.", "DESIGN.md 4.3, 5/C13"),
  "C17": ("rhp", "Contracts.tla skeletons enumerated/simulated by TLC, executed on the real RHP4 constructors; results validated by TLC (ContractsTrace.tla over BigNat: post-conditions + transcribed consensus rules) and submitted to the real ValidateV2Transaction; design model ContractsDesign.tla model-checked; exhaustive size sequences (append/free/refresh) with CapacityMonotone; Admission.tla (what a host must refuse per RPC) compared with the real Validate methods, every admitted request built and submitted to consensus",
@@ -41,10 +41,10 @@ CLAIMED = {
  "C09": ("pure", "Purity.tla memo-function specification model-checked (honest and dishonest implementations); interleaved begin/end logs of concurrent real calls (1/2/8/32 goroutines under the race detector, on the same memory and on decoded / shared / deep-copied / JSON copies) validated by TLC (PurityTrace.tla); reflection probes of every copy and decode result (shared backing arrays and capacity overlap); Mutate layer: the same content obtained six ways updated in place and by append",
          "Every recorded call leaves its inputs' deep digest unchanged and returns the result recorded for the same content key, across goroutine counts and copies; the per-transaction path gives the block's verdict; Copy/DeepCopy results share no slice memory with their originals. Found and fixed the shallow element Copy methods.",
          "Trusted: the Go race detector for race detection (the model only judges the logs), the harness's reflection digest, TLC. Pointer/interface sharing of DeepCopy is reported as information.", "DESIGN.md 4.10, 5/C09"),
- "C10": ("wire", "Malformed.tla (annotated wire interpreter, asserted equal to Wire!Enc): TLC enumerates structural corruptions of valid encodings of every wire shape (cut points, inflated/deflated length prefixes, counts, bools, tags, currencies, policy depth/arity, multiproof hints, outline kinds) and of JSON/text forms; Extremes.tla enumerates structure-aware mutations of valid blocks (currency extremes alone, in pairs, as pre-check complements and uint64 wrap pairs, proof lengths, covered-field patterns, id confusion, duplicated/missing parents, decodable nil values, life-cycle extremes); every case is executed on the real decoders (worker processes) and on ValidateHeader/Orphan/Transaction/V2Transaction/Block, ApplyBlock and RevertBlock over TLC-generated ledger behaviours",
+ "C10": ("wire", "Malformed.tla (annotated wire interpreter, asserted equal to Wire!Enc): TLC enumerates structural corruptions of valid encodings of every wire shape (cut points, inflated/deflated length prefixes, counts, bools, tags, currencies, policy depth/arity, multiproof hints, outline kinds) and of JSON/text forms; Extremes.tla enumerates structure-aware mutations of valid blocks (currency extremes alone, in pairs, as pre-check complements and uint64 wrap pairs, proof lengths, covered-field patterns, id confusion, duplicated/missing parents, decodable nil values, life-cycle extremes); every case is executed on the real decoders (worker processes) and on ValidateHeader/Orphan/Transaction/V2Transaction/Block, ApplyBlock and RevertBlock over TLC-generated ledger behaviours; exhaustive families of honest blocks (every Ledger.tla behaviour of small families incl. empty v2 contracts and legacy ephemeral siafunds) must pass without panic",
          "Every decode/unmarshal case returns a value or an error without panic, without outliving a 120 s confirmation deadline and without holding more than 64 x input + 1 MiB of heap (peak, measured alone in a fresh process); every mutated block either fails validation with an error or is applied and reverted without panic. TLC announces the case count per shape and the harness must derive the same number. Found F3 F4 F11 F12 F19-F23 F26 (fixed) and F24 (known).",
          "Trusted: wirebridge registry of wire types, the Go runtime's MemStats/heap sampling for the peak-memory verdict, wall-clock deadlines (5 s suspect, 120 s verdict) for non-termination, TLC. Unstructured random bytes are not generated. Quadratic-time but terminating inputs are listed as observations (slow_cases), not verdicts.", "DESIGN.md 4.8, 5/C10, 11.3"),
- "C11": ("wire", "Wire.tla schema interpreter: TLC validates bytes = Enc(schema, value) for recorded real encodings of all 177 wire types (direction B) and enumerates small shapes whose bytes the real decoders must decode and re-encode identically (direction A); round trip, canonicity, single-field influence and truncation decided on the real code",
+ "C11": ("wire", "Wire.tla schema interpreter: TLC validates bytes = Enc(schema, value) for recorded real encodings of all 177 wire types (direction B) and enumerates small shapes whose bytes the real decoders must decode and re-encode identically (direction A); round trip, canonicity, single-field influence and truncation decided on the real code; PolicyLimits.tla: policy shapes at the codec's documented limits (nesting depth 31..34, 255 children, 1025 thresholds) must be accepted up to the limit and refused beyond",
          "The byte layout of every registered wire type equals the independently written schema; decode(encode(v)) = v up to the explicit normalisation table; every transmitted leaf field changes the bytes; every proper prefix fails to decode; bool bytes other than 0/1 are rejected.",
          "Trusted: wirebridge reflection walker (schema and Go struct walked in lock-step), TLC. Unexported rhp2/rhp3 response wrappers not covered.", "DESIGN.md 4.8, 5/C11"),
  "C14": ("policy", "TLC check VerifyAlg = Meaning on the bounded policy space (Policy.tla); every TLC-evaluated (policy, witnesses, context) row replayed on the real SpendPolicy.Verify with real keys/signatures/preimages and through ValidateV2Transaction; random deep trees validated by TLC trace (PolicyTrace.tla); numeric parameters at the edges of their machine types through value classes BIG/NEG whose members are all instantiated on the real code",
@@ -55,13 +55,13 @@ CLAIMED = {
          "The carry/overflow structure of every Currency algorithm is model-checked exact for all operands at small limb widths; every recorded execution of the real code (boundary x boundary, structured, random, constructed quotient cases; all printed forms; reject catalogue of literals) is accepted by the exact-arithmetic trace specification.",
          "Trusted: BigNat.tla (cross-checked against TLC integers on every run), the harness's lexing of printed forms into digit sequences, TLC. Real 64-bit code is sampled, not exhausted.",
          "DESIGN.md 4.5, 5/C15"),
- "C16": ("merkle", "TLC check of RHPMerkle.tla (definition = transcription, completeness, corruption catalogue) on bounded trees; every TLC case replayed on the real builders/verifiers with symbolic terms evaluated by the real hash primitives, on both CPU paths",
+ "C16": ("merkle", "TLC check of RHPMerkle.tla (definition = transcription, completeness, corruption catalogue) on bounded trees; every TLC case replayed on the real builders/verifiers with symbolic terms evaluated by the real hash primitives, on both CPU paths; MerkleStream.tla: the streaming range verifier transcribed, every honest range against every claimed range with cut and over-long streams, replayed at the start, middle and end of a real sector",
          "Range, diff/free, append and sector-roots proofs: builder output equals the spec's term list, verifiers accept honest proofs with the right roots and reject every catalogued corruption given the true count; sector-level roots/proofs and streaming verifiers compared against the plain definition; AVX2 and generic paths agree. Found and fixed the free-sectors altered-index defect.",
          "Trusted: collision-free hashing, the harness's term evaluator (cross-checked against expanded TLC terms each run), CPU path toggled from outside (GODEBUG).", "DESIGN.md 4.6, 5/C16"),
  "C18": ("acc", "Multiproof.tla (definition + transcription of compute/expand/size and the numLeaves inference) and Outline.tla model-checked; every TLC case replayed on real accumulators and real V2TransactionsMultiproof encode/decode; real ledger blocks round-tripped; outlines of real and synthetic blocks completed against TLC-enumerated pool classes",
          "The multiproof of every bounded leaf multiset equals the spec's list, decoding restores every proof bit for bit (duplicates, chain-index leaves, ephemeral parents), block ID / commitment / validity are unchanged by the round trip; an outline with any omitted subset has the block's ID, completes to exactly the block or reports exactly the missing hashes, and its codec is the identity.",
          "Trusted: collision-free hashing, hterm term evaluator, the verif export shims (forwards only), TLC.", "DESIGN.md 4.2, 4.9, 5/C18"),
- "C19": ("net", "TLC model checking of Session/Handshake/KeyExchange/Framing specs; every TLC fault schedule replayed by an in-memory man-in-the-middle between real RHP2/RHP3/gateway endpoints; framing lines of real maximal/over-limit messages validated by TLC (FramingTrace.tla); FrameSizes.tla (RHP2 padding and limits as lengths, every boundary size through all read paths); Reuse.tla (buffer-reusing decoders and dirty receivers)",
+ "C19": ("net", "TLC model checking of Session/Handshake/KeyExchange/Framing specs; every TLC fault schedule replayed by an in-memory man-in-the-middle between real RHP2/RHP3/gateway endpoints; framing lines of real maximal/over-limit messages validated by TLC (FramingTrace.tla); FrameSizes.tla (RHP2 padding and limits as lengths, every boundary size through all read paths); Reuse.tla (buffer-reusing decoders and dirty receivers); Exchanges.tla / Cuts.tla (whole RPC exchanges with a cut at every frame); Calls.tla (Transport.Call / Stream.Call with their documented response limit, every size up to it)",
          "Delivered sequence is an unaltered prefix, faults are detected and close the session, handshakes succeed iff genesis matches and unique IDs differ, maximal valid messages of 93 object types are admitted and over-limit ones refused within the limit, error responses surface as that error.",
          "Trusted: mux authentication (external), deadlines classify blocked reads, limits observed through behaviour (no export hook).", "DESIGN.md 4.9, 5/C19"),
  "C20": ("text", "Text.tla (printed forms, accepted languages, normalisation) checked by TLC trace validation of real text/JSON round trips; TLC-generated corrupted identifiers replayed on the real parsers; JSON round-tripped updates compared on a real chain",
